@@ -9,6 +9,7 @@ import (
 	"errors"
 	"fmt"
 	"strings"
+	"time"
 
 	"github.com/GoogleCloudPlatform/grpc-gcp-go/grpcgcp"
 	"google.golang.org/grpc"
@@ -42,17 +43,18 @@ type Op struct {
 	Cfg   int  `json:"cfg,omitempty"`   // resolve: 0=case config 1=nil 2=foreign type 3=alternative config
 	SC    bool `json:"sc,omitempty"`    // resolve: the resolver result also carries a (non-nil) service config parse result
 
-	Sel   int  `json:"sel,omitempty"`     // state: 0=pool slot 1=replacement 2=removed conn 3=never-seen conn 4=replacement of the home slot of Key 5=home slot of Key 6=stand-in slot of Key
-	Idx   int  `json:"idx,omitempty"`     // state/adv: index; done/cancel: call index (-1 = most recent)
-	St    int  `json:"st,omitempty"`      // state: connectivity.State value
-	Pk    int  `json:"pk,omitempty"`      // pick: 0 = most recent picker, n>0 = stale picker (n-1) mod population
-	M     int  `json:"m,omitempty"`       // pick: method index into Methods
-	Key   int  `json:"key,omitempty"`     // pick: request key index into Keys
-	KeyOf int  `json:"keyof,omitempty"`   // pick: !=0: use a key bound to the channel of the most recent outstanding call, if there is one
-	Msg   int  `json:"msg,omitempty"`     // pick: 0 normal, 1 nil message, 2 empty list / empty key, 3 nil pointer message, 4 non-struct message, 5 struct with a nil embedded message pointer
-	NoIC  bool `json:"noic,omitempty"`    // pick: context without the interceptor value
-	DlMs  int  `json:"dlms,omitempty"`    // pick: deadline in ms (0 = none)
-	Exp   bool `json:"expired,omitempty"` // pick: the context has already ended when the pick is issued (deadline in the past)
+	Sel   int  `json:"sel,omitempty"`          // state: 0=pool slot 1=replacement 2=removed conn 3=never-seen conn 4=replacement of the home slot of Key 5=home slot of Key 6=stand-in slot of Key
+	Idx   int  `json:"idx,omitempty"`          // state/adv: index; done/cancel: call index (-1 = most recent)
+	St    int  `json:"st,omitempty"`           // state: connectivity.State value
+	Pk    int  `json:"pk,omitempty"`           // pick: 0 = most recent picker, n>0 = stale picker (n-1) mod population
+	M     int  `json:"m,omitempty"`            // pick: method index into Methods
+	Key   int  `json:"key,omitempty"`          // pick: request key index into Keys
+	KeyOf int  `json:"keyof,omitempty"`        // pick: !=0: use a key bound to the channel of the most recent outstanding call, if there is one
+	Msg   int  `json:"msg,omitempty"`          // pick: 0 normal, 1 nil message, 2 empty list / empty key, 3 nil pointer message, 4 non-struct message, 5 struct with a nil embedded message pointer
+	NoIC  bool `json:"noic,omitempty"`         // pick: context without the interceptor value
+	DlMs  int  `json:"dlms,omitempty"`         // pick: deadline in ms (0 = none)
+	Late  int  `json:"lateDeadline,omitempty"` // pick: 1 the context reports a deadline equal to now, 2 one in the past, and is not done (a context's timer may run late; custom contexts)
+	Exp   bool `json:"expired,omitempty"`      // pick: the context has already ended when the pick is issued (deadline in the past)
 
 	Out   int   `json:"out,omitempty"`   // done: 0 ok 1 Unavailable 2 client-side DEADLINE_EXCEEDED text 3 DEADLINE_EXCEEDED other text 4 raw context.DeadlineExceeded 5 Canceled 6..22 status code (n-6) 23 plain error 24 io.EOF
 	Rep   int   `json:"rep,omitempty"`   // done: 0 = the response of a BIND carries the request's key, 1 = it carries Reply (possibly empty)
@@ -312,3 +314,11 @@ func ictx(parent context.Context, req, reply interface{}) context.Context {
 }
 
 var stNames = map[connectivity.State]string{connectivity.Idle: "Idle", connectivity.Connecting: "Connecting", connectivity.Ready: "Ready", connectivity.TransientFailure: "TransientFailure", connectivity.Shutdown: "Shutdown"}
+
+// lateCtx reports a deadline that has been reached while it is not done yet.
+type lateCtx struct {
+	context.Context
+	dl time.Time
+}
+
+func (c lateCtx) Deadline() (time.Time, bool) { return c.dl, true }
